@@ -1,6 +1,7 @@
 package main
 
 import (
+	"encoding/json"
 	"fmt"
 	"os"
 	"path/filepath"
@@ -97,4 +98,75 @@ func fucList(rs []*FnResult) []string {
 		out = append(out, r.Fn)
 	}
 	return out
+}
+
+// prepareExempt: a small, loop-free, non-recursive function that falls under a *default* contract, did not exist when
+// the baseline was taken, and does not satisfy that default contract is a helper introduced by a refactoring (e.g. one
+// that increments the depth on behalf of its caller). It is not reported; instead it loses the default contract, so its
+// callers see its body (inlining) and must prove their own contracts with it.
+func (e *Engine) prepareExempt(id string, fns []*ssa.Function, opts *VCOpts) {
+	known := map[string]bool{}
+	if b, err := os.ReadFile(filepath.Join(verifDir(), "baseline", id+".json")); err == nil {
+		var bf struct {
+			Functions []string `json:"functions"`
+		}
+		json.Unmarshal(b, &bf)
+		for _, f := range bf.Functions {
+			known[f] = true
+		}
+		if len(bf.Functions) == 0 {
+			return // no function list recorded: nothing is "new"
+		}
+	} else {
+		return
+	}
+	if e.exempt == nil {
+		e.exempt = map[string]bool{}
+	}
+	for _, fn := range fns {
+		k := fnKey(fn)
+		if known[k] || e.exempt[k] {
+			continue
+		}
+		if _, explicit := e.Contracts[k]; explicit {
+			continue
+		}
+		ct := e.contractFor(fn, opts)
+		if ct == nil || !ct.Default {
+			continue
+		}
+		n, loops, selfrec := 0, false, false
+		for _, b := range fn.Blocks {
+			n += len(b.Instrs)
+			for _, s := range b.Succs {
+				if s.Dominates(b) {
+					loops = true
+				}
+			}
+			for _, ins := range b.Instrs {
+				if c, ok := ins.(ssa.CallInstruction); ok && c.Common().StaticCallee() == fn {
+					selfrec = true
+				}
+			}
+		}
+		if n > 80 || loops || selfrec {
+			continue
+		}
+		o2 := *opts
+		o2.Safety = false
+		o2.CheckTags = nil
+		r := e.verifyFn(fn, &o2, nil)
+		initSem(16)
+		dischargeFn(r, Tier{Name: "exempt", BatchMS: 2000, SingleS: 5, Parallel: 16})
+		bad := false
+		for _, o := range r.Obls {
+			if o.Kind == "post" && o.Answer != "unsat" {
+				bad = true
+			}
+		}
+		if bad {
+			e.exempt[k] = true
+			e.Exempted = append(e.Exempted, k)
+		}
+	}
 }
